@@ -92,7 +92,7 @@ def dispatchAgrees (w0 : IWorld) (ops : List Op) (stepLogs : List (List String))
   if !plain then none else
   let regs : List Dispatch.Watcher := w0.regs.map fun x =>
     { id := x.id, params := x.params.filterMap (fun n => keyIndex keys ⟨n, x.what⟩), onlychanged := true,
-      queued := x.queued, precedence := x.precedence, body := 0 }
+      queued := x.queued, precedence := x.precedence, body := 0, cb := x.id }
   let cfg : Dispatch.Cfg := { bounds := keys.map (fun _ => (none, none)), bodies := [[]] }
   let dw0 : Dispatch.World := { vals := w0.vals.map (·.2), regs := regs, batch := false, trigger := false, events := [], queued := [] }
   match ops.mapM (encOp keys) with
